@@ -125,6 +125,76 @@ def run(ck):
         ck.ob("C10-R2", "undo:%s.emplace_back#%d" % (vec, i), not problems, e.loc, f, "; ".join(sorted(set(problems))) or
               "pop_back on '%s' on every path where the lookup below failed" % vec)
 
+    # ---------------- R5: bindings are built afresh for every attempt ----------------
+    ck.rule("C10-R5", "C loop-carried move check",
+            "inside findRoute's retry loops nothing that is std::move'd (or passed as an rvalue) into a binding outlives one attempt: a "
+            "variable declared outside a loop is never moved-from inside it, so every alternative binds the real segment text", 2)
+    loops = {}
+    for b in f.blocks.values():
+        # blocks that can reach themselves
+        rb = cfg.reachable_blocks(f, b.id) if any(s is not None for s in b.succs) else set()
+        for s in b.succs:
+            if s is not None and b.id in cfg.reachable_blocks(f, s):
+                loops[b.id] = True
+                break
+    moves = [e for e in f.events("call") if e.base_callee() in ("std::move", "std::forward") and e.get("args") and e["args"][0].get("v")]
+    decls = {(d_["var"], d_.get("vd")): d_ for d_ in f.events("decl")}
+    nchk = 0
+    for pu in pushes:
+        # arguments of the binding that are moved variables
+        blk = f.blocks[pu.block]
+        for m in moves:
+            if m.block != pu.block or m.idx > pu.idx:
+                continue
+            key = (m["args"][0]["v"], m["args"][0].get("vd"))
+            d_ = decls.get(key)
+            nchk += 1
+            carried = False
+            why = "moved value is declared in the same attempt"
+            if d_ is not None and pu.block in loops:
+                # declared outside the cycle that contains the push?
+                cyc = {x for x in cfg.reachable_blocks(f, pu.block) if pu.block in cfg.reachable_blocks(f, x)}
+                if d_.block not in cyc:
+                    carried = True
+                    why = "'%s' is declared before the loop (line %s) and moved from inside it (line %s): later alternatives bind an empty string" % (key[0], d_.get("l"), m.get("l"))
+            elif d_ is None and key[0] in [p_["name"] for p_ in f.params]:
+                carried = pu.block in loops
+                why = "parameter '%s' moved inside a loop" % key[0]
+            ck.ob("C10-R5", "fresh-binding:%s.emplace_back(%s)" % (pu["recv"]["v"], key[0]), not carried, m.loc, f, why)
+    # also: values passed to emplace_back by name must be declared inside the loop body when the push is in a loop
+    for pu in pushes:
+        if pu.block not in loops:
+            continue
+        cyc = {x for x in cfg.reachable_blocks(f, pu.block) if pu.block in cfg.reachable_blocks(f, x)}
+        for a in pu.get("args", []):
+            v = a.get("v") or (a.get("moved") or {}).get("v")
+            vd = a.get("vd") or (a.get("moved") or {}).get("vd")
+            if not v:
+                continue
+            d_ = decls.get((v, vd))
+            nchk += 1
+            inside = d_ is not None and d_.block in cyc
+            moved = bool(a.get("moved"))
+            ck.ob("C10-R5", "fresh-binding:%s.emplace_back(%s)" % (pu["recv"]["v"], v), inside or not moved, pu.loc, f,
+                  "'%s' is built inside the attempt" % v if inside else ("'%s' outlives the attempt and is %s" % (v, "moved-from" if moved else "only copied")))
+    ck.require(nchk >= 2, "no binding arguments analysed")
+
+    # ---------------- R6: removability covers every member ----------------
+    ck.rule("C10-R6", "exhaustiveness over the node's members (all returns)",
+            "every value SegmentTreeNode::removeRoute returns is this node's own emptiness: it mentions each member that can hold a child "
+            "or a route (fixed_, param_, optional_, splat_, route_), so a parent erases a child only when nothing is left in it", 1)
+    node = prog.cls(R + "SegmentTreeNode")
+    members = [x["name"] for x in node["fields"] if x["name"] != "resource_ref_" and ("map" in x["type"] or "shared_ptr" in x["type"])]
+    ck.require(len(members) >= 5, "SegmentTreeNode members holding children/route: %s" % members)
+    rr = lib.single(prog, N + "removeRoute")
+    rets = [e for e in rr.events("return")]
+    ck.require(rets, "no return in removeRoute")
+    for i, e in enumerate(rets):
+        refs = e.get("refs") or []
+        missing = [m for m in members if ("f:" + N + m) not in refs]
+        ck.ob("C10-R6", "removeRoute/return#%d-own-emptiness" % i, not missing, e.loc, rr,
+              "mentions %s" % members if not missing else "the returned removability ignores %s: a node that still holds it would be erased by its parent" % missing)
+
     # ---------------- R3 ----------------
     g = lib.single(prog, R + "Router::route")
 
